@@ -36,7 +36,7 @@ def run(ctx):
                     if tt["k"] == "call" and (tt.get("rf") or "").startswith(N):
                         calls.add(tt["rf"].split("::")[-1])
                 table[lab] = calls
-        ok = table.get(0) == {"new_v0"} and table.get(255) == {"new_v255"} and table.get("otherwise") == set()
+        ok = table.get(0) == {"new_v0"} and table.get(255) == {"new_v255"} and table.get("otherwise") == set() and all(v == set() for k, v in table.items() if k not in (0, 255))
         ctx.check(ok, "C14.new.table", n.path, "version table 0 -> new_v0, 255 -> new_v255, other -> reject (found %s)" % {k: sorted(v) for k, v in table.items()}, key="C14.new.table")
         rej = [x for x in exit_sites(n) if x["kind"] == "reject"]
         ctx.check(len(rej) >= 1, "C14.new.reject", n.path, "unsupported versions are rejected", key="C14.new.reject")
